@@ -4,7 +4,8 @@ A scenario is a JSON-able dict:
   topo    : ['attached', nworkers] | ['detached', [nworkers_of_manager_0, ...]]
   progs   : {fn: [[instr...], ...]}
   clients : [[call, ...], ...]   call = ['submit', handle, fn] | ['result', h] | ['status', h] | ['cancel', h] | ['close']
-  sched   : ['random', seed] | ['pct', seed, depth] | ['replay', picks, choices]
+                                        | ['settle']  (not a request: the client waits until nothing else in the system can move)
+  sched   : ['random', seed] | ['pct', seed, depth] | ['delay', seed, rate, maxlen] | ['replay', picks, choices]
   lines   : bool    line-level interleaving inside the worker's critical functions
   crash   : null | [node, k]   kill `node` k scheduler steps after the first client submit
   crash2  : null | [node, k]   second crash, k steps after the first
@@ -18,7 +19,39 @@ import uuid
 from harness import rtprog, sim
 
 LINE_FUNCS = ('_process_await', '_handle_result', '_get_next_ready_task', '_handle_cancel',
-              '_process_task_completion', 'cancel', '_get_desired_result', 'recv_incoming')
+              '_process_task_completion', 'cancel', '_get_desired_result', 'recv_incoming', '_add_task')
+
+
+class DelaySched:
+    """Random scheduling with *delays*: now and then an enabled thread is put to sleep for a random number of steps
+    (as long as something else can run).  A thread that is descheduled at one point for a long stretch is what the OS
+    does to a pre-empted thread; uniform random choice practically never produces it (the other thread would have to
+    win dozens of coin flips in a row).  Threads parked at a source-line scheduling point are preferred as sleepers:
+    those are the windows line-level mode exists for."""
+
+    def __init__(self, seed, rate=0.04, maxlen=120):
+        import random as _random
+        self.rng = _random.Random(seed)
+        self.rate = rate
+        self.maxlen = maxlen
+        self.asleep = {}          # thread name -> step at which it wakes
+
+    def pick_thread(self, en, k):
+        now = k.steps
+        for n in [n for n, t in self.asleep.items() if t <= now]:
+            del self.asleep[n]
+        if len(en) > 1 and self.rng.random() < self.rate:
+            w = [3 if (t.why and t.why[0] == 'line') else 1 for t in en]
+            t = self.rng.choices(en, weights=w)[0]
+            self.asleep[t.name] = now + self.rng.randint(8, self.maxlen)
+        cand = [i for i, t in enumerate(en) if t.name not in self.asleep]
+        if not cand:
+            self.asleep.clear()
+            cand = list(range(len(en)))
+        return cand[self.rng.randrange(len(cand))]
+
+    def pick(self, n, kind, k):
+        return self.rng.randrange(n)
 
 
 def make_sched(spec):
@@ -27,6 +60,8 @@ def make_sched(spec):
         return sim.RecordingSched(sim.RandomSched(spec[1]))
     if kind == 'pct':
         return sim.RecordingSched(sim.PCTSched(spec[1], spec[2] if len(spec) > 2 else 3))
+    if kind == 'delay':
+        return sim.RecordingSched(DelaySched(spec[1], spec[2] if len(spec) > 2 else 0.04, spec[3] if len(spec) > 3 else 120))
     if kind == 'replay':
         return sim.RecordingSched(sim.ReplaySched(spec[1], spec[2]))
     raise ValueError(kind)
@@ -100,7 +135,11 @@ class Run:
         self.handles, self.cowner, self.cfn, self.probe_cid = static_ids(sc)
         self.croot = [rtprog.preregister(c + 1, fn) for c, fn in enumerate(self.cfn)]
         self.futkids = {}
+        self.stats = {}            # how often the situations the scenario families aim at were reached (diagnostics only)
+        self.mb2uuid = {}          # server mailbox id -> uuid of its compilation, recorded when the row was first seen
+        self.k.releases = []       # (thread name, step, lock) of every SimLock.release (filled by sim.SimLock if it has the hook)
         if sc.get('lines'):
+            self.k.keep_trace = True
             import bqskit.runtime.worker as W
             for n in LINE_FUNCS:
                 f = getattr(W.Worker, n, None)
@@ -125,6 +164,18 @@ class Run:
                 i = _task_id_of(t)
                 if i:
                     rtprog.ev('Forward', t=i, w=wid)
+        elif name in ('RESULT', 'UPDATE') and isinstance(conn.owner, str) and conn.owner.startswith('w'):
+            # a worker tells its boss that a task it was given is finished (RESULT for a task whose parent lives elsewhere,
+            # UPDATE -1 for one whose parent lives on the same worker): the counterpart of Forward for the C15 bookkeeping
+            try:
+                w = self.net.workers.get(conn.owner)
+                act = getattr(w, '_active_task', None)
+                if act is not None and (name == 'RESULT' or obj[1] == -1):
+                    i = _task_id_of(act)
+                    if i:
+                        rtprog.ev('Report', t=i, w=int(conn.owner[1:]))
+            except Exception as e:                  # projection only: never let an observer break the run
+                self.note('UNOBSERVABLE clause=idle-belief-at-quiescence:task-count (%s)' % e)
 
     def _on_exit(self, node, how):
         if node in self.sd_logged and how == 'exit':
@@ -147,10 +198,12 @@ class Run:
             node = sim.CUR.node()
 
             def handle_message(msg, direction, conn, payload):
+                r = B.ServerBase._verif_run
+                r._before_message(self_, node, msg, direction, payload)
                 try:
                     return hm(msg, direction, conn, payload)
                 finally:
-                    B.ServerBase._verif_run._boss_state(self_, node)
+                    r._boss_state(self_, node)
             self_.handle_message = handle_message
             return orig_run(self_)
         B.ServerBase.run = wrapped_run
@@ -170,7 +223,34 @@ class Run:
                 return _orig(self_)
             cls.handle_shutdown = wrapped_sd
 
+    def _before_message(self, srv, node, msg, direction, payload):
+        """Harness-side records (attribution of server table entries; statistics).  Never influences the run."""
+        try:
+            name = getattr(msg, 'name', '')
+            dname = getattr(direction, 'name', '')
+            if dname == 'CLIENT' and name == 'SUBMIT':
+                wf = payload.workflow
+                p0 = wf._passes[0] if hasattr(wf, '_passes') else list(wf)[0]
+                self.uuid2cid.setdefault(payload.task_id, p0.cid)
+            elif dname == 'BELOW' and name == 'ERROR' and isinstance(payload, tuple) and hasattr(srv, 'mailboxes'):
+                mb = payload[0]
+                if mb in srv.mailbox_to_task_dict and mb not in srv.mailboxes:
+                    self.stats['error_after_delivered_result'] = self.stats.get('error_after_delivered_result', 0) + 1
+                elif mb in srv.mailbox_to_task_dict:
+                    self.stats['error_before_result'] = self.stats.get('error_before_result', 0) + 1
+            elif dname == 'BELOW' and name == 'RESULT' and hasattr(srv, 'mailboxes') and payload.return_address.worker_id == -1:
+                if payload.return_address.mailbox_index not in srv.mailboxes:
+                    self.stats['root_result_after_cancel'] = self.stats.get('root_result_after_cancel', 0) + 1
+        except Exception:
+            pass
+
     def _boss_state(self, srv, node):
+        try:
+            if hasattr(srv, 'tasks'):
+                for u, (mb, _) in list(srv.tasks.items()):
+                    self.mb2uuid.setdefault(mb, u)
+        except Exception:
+            pass
         try:
             emps = [[int(e.num_tasks), int(e.num_idle_workers), int(e.total_workers)] for e in srv.employees]
             rtprog.ev('BossState', node=node, total=int(srv.total_workers), idle=int(srv.num_idle_workers), emps=emps)
@@ -270,6 +350,11 @@ class Run:
             elif op == 'close':
                 closed = True
                 call('close', 0, lambda: (comp.close(), ('ok', {}))[1])
+            elif op == 'settle':
+                # not a request: the client lets time pass until nothing else in the system can move (every message that
+                # was on its way has arrived, every task that could run has run)
+                self.k.wait_timeout(('settle', ci), lambda: False)
+                rtprog.ev('Settle', c=c)
         if not is_probe:
             self.at_gate.add(ci)
             self.k.yield_(('gate', ci), lambda: self.gate_open)
@@ -282,16 +367,27 @@ class Run:
                 pass
 
     # ---- snapshot of every node's tables (projection; degrades to UNOBSERVABLE notes)
-    def snapshot(self, final, settled):
+    def _cid_of_uuid(self, u):
+        return self.uuid2cid.get(u, 0)
+
+    def snapshot(self, final, settled, livelock=False):
         residue = []
 
         def add(tab, kind, i):
             if i:
                 residue.append({'tab': tab, 'kind': kind, 'id': int(i)})
+
+        def add_comp(tab, cid):
+            # an entry that cannot be attributed to any compilation the harness knows of is reported as an orphan
+            if cid:
+                residue.append({'tab': tab, 'kind': 'comp', 'id': int(cid)})
+            else:
+                residue.append({'tab': tab, 'kind': 'orphan', 'id': 0})
+
         def gone(node):
             # a process that has exited (or was killed) holds nothing
             return node in self.net.dead or all(t.state == 'done' for t in self.k.threads if t.node == node)
-        for node, w in self.net.workers.items():
+        for node, w in ([] if livelock else list(self.net.workers.items())):
             if gone(node):
                 continue
             try:
@@ -304,32 +400,48 @@ class Run:
             except AttributeError as e:
                 self.note('UNOBSERVABLE clause=residue-of-cancelled-work (%s)' % e)
         srv = [0, 0, 0]
+        emps = []
         top = self.net.servers.get('server')
-        if top is not None and not gone('server') and getattr(top, 'running', True):
+        if top is not None and not livelock and not gone('server') and getattr(top, 'running', True):
             try:
-                for u, (mb, conn) in list(top.tasks.items()):
-                    if mb in top.mailboxes:
-                        add('server.mailboxes', 'comp', self.uuid2cid.get(u, 0))
+                # EVERY entry of EVERY client-facing table is projected.  Mailbox ids are mapped back to compilations with
+                # the record taken when the row was first seen (self.mb2uuid), so a mailbox whose task row is gone is still
+                # attributed; what cannot be attributed at all is an "orphan".  L1 decides what is residue.
+                for mb in list(top.mailboxes.keys()):
+                    add_comp('server.mailboxes', self._cid_of_uuid(self.mb2uuid.get(mb)))
                 for conn, us in list(top.clients.items()):
                     for u in us:
-                        add('server.clients', 'comp', self.uuid2cid.get(u, 0))
-                # rows of tasks / mailbox_to_task_dict are kept for delivered results on purpose (late log messages);
-                # they are residue only for cancelled compilations
+                        add_comp('server.clients', self._cid_of_uuid(u))
+                    peer = str(getattr(conn, 'peer', ''))
+                    if peer.startswith('client') and peer[6:].isdigit():
+                        add('server.clients.conn', 'client', int(peer[6:]) + 1)
+                # rows of tasks / mailbox_to_task_dict are kept for delivered results on purpose (late log messages) while
+                # the client is connected; L1 counts them as residue for cancelled compilations and disconnected clients
                 for u in list(top.tasks.keys()):
-                    add('server.tasks', 'comp', self.uuid2cid.get(u, 0))
+                    add_comp('server.tasks', self._cid_of_uuid(u))
+                for mb, u in list(top.mailbox_to_task_dict.items()):
+                    add_comp('server.mailbox_to_task_dict', self._cid_of_uuid(u) or self._cid_of_uuid(self.mb2uuid.get(mb)))
             except AttributeError as e:
                 self.note('UNOBSERVABLE clause=residue-of-cancelled-work (%s)' % e)
             try:
                 if top.running and top.employees:
                     srv = [int(top.total_workers), int(top.num_idle_workers), int(sum(e.num_tasks for e in top.employees))]
+                    emps = [[int(e.num_tasks), int(e.num_idle_workers), int(e.total_workers)] for e in top.employees]
             except AttributeError as e:
                 self.note('UNOBSERVABLE clause=idle-belief-at-quiescence (%s)' % e)
         blocked = sorted(ci + 1 for ci, p in self.pending.items() if p is not None)
         alive = sorted({t.node for t in self.k.threads
                         if t.state != 'done' and t.node and not t.node.startswith('client') and t.node != 'probe'})
-        rtprog.ev('Quiescent', blocked=blocked, alive=alive, residue=residue, srv=srv, final=final, settled=settled)
+        rtprog.ev('Quiescent', blocked=blocked, alive=alive, residue=residue, srv=srv, emps=emps, final=final, settled=settled,
+                  how='livelock' if livelock else '')
 
     # ---- the run
+    def _stuck(self, status):
+        """The step bound was reached: the system never fell idle.  That is not a harness failure but a (bounded-fairness)
+        liveness observation: the trace ends with an idle-like snapshot marked how='livelock' and L1 judges it."""
+        self.snapshot(final=True, settled=False, livelock=True)
+        return self.finish(status)
+
     def go(self, max_steps=400000):
         sc = self.sc
         self.spawn_topology()
@@ -352,8 +464,11 @@ class Run:
                 self.crashed.append(node)
             base = self.k.steps
         status = self.k.run(max_steps)
+        if status == 'maxsteps':
+            return self._stuck(status)
         settled = all(ci in self.at_gate for ci in range(len(sc['clients'])))
         self.snapshot(final=False, settled=settled and status == 'quiescent')
+        self._window_stats()
         if sc.get('probe') and status == 'quiescent':
             pi = len(sc['clients'])
             self.pending[pi] = None
@@ -366,10 +481,46 @@ class Run:
             del rtprog.LOG[n0:]
             self.pending.pop(pi, None)
             rtprog.ev('Probe', ok=ok)
+            if status == 'maxsteps':
+                return self._stuck(status)
         self.gate_open = True
         status = self.k.run(max_steps)
+        if status == 'maxsteps':
+            return self._stuck(status)
         self.snapshot(final=True, settled=False)
         return self.finish(status)
+
+    def _window_stats(self):
+        """Line-level mode: how often did a worker's main thread run (and how often did it even report WAITING) while its
+        incoming thread was parked right behind a release of read_receipt_mutex - the window in which a read receipt stored
+        outside the lock would be stale.  Statistics only."""
+        if not self.k.keep_trace or not getattr(self.k, 'releases', None):
+            return
+        tr = self.k.trace
+        rr = {}
+        for node, w in self.net.workers.items():
+            rr[id(getattr(w, 'read_receipt_mutex', None))] = node
+        nwin = nran = nwait = 0
+        for name, step, lock in self.k.releases:
+            node = rr.get(id(lock))
+            if node is None or 'recv_incoming' not in name:
+                continue
+            nwin += 1
+            ran = waited = False
+            # trace[i] = (thread, why) of step i+1; the release happened during step `step`
+            for i in range(step, len(tr)):
+                tn, why = tr[i]
+                if tn == name:
+                    break
+                if tn == node + '.main':
+                    ran = True
+                    if why and why[0] == 'send' and why[-1] == 'WAITING':
+                        waited = True
+            nran += ran
+            nwait += waited
+        self.stats['receipt_windows'] = nwin
+        self.stats['receipt_window_main_ran'] = nran
+        self.stats['receipt_window_main_went_idle'] = nwait
 
     def finish(self, status):
         evs = []
@@ -397,7 +548,7 @@ class Run:
             'thread_errors': [(t.name, repr(t.exc)[:300]) for t in self.k.threads if t.exc is not None],
             'blocked_threads': [(t.name, str(t.why)) for t in self.k.threads if t.state != 'done'][:30],
             'picks': self.sched.picks, 'choices': [list(c) for c in self.k.choices],
-            'crashed': self.crashed, 'notes': self.notes,
+            'crashed': self.crashed, 'notes': self.notes, 'stats': self.stats,
         }
         return trace, diag
 
